@@ -449,9 +449,14 @@ def run(tier, pid="C09"):
         lres.append((bad, ncmp, info))
     t_py = time.time() - t0
     codes, t_coq, nfiles, kases = coq_eval(pid, cases, outs)
+    # code 30 is informational: borderline stopping decision (exact kold within rounding noise of tol) and the
+    # implementation's iteration count differs from the exact model's; counted, never a failure
+    borderline = sorted(i for i, cs in codes.items() if 30 in cs)
+    codes = {i: [c for c in cs if c != 30] for i, cs in codes.items()}
+    codes = {i: cs for i, cs in codes.items() if cs}
     kinfo = {k["kid"]: {"nconv": k["nconv"], "nruns": len(k["runs"])} for k in kases}
     res = {"cases": cases, "outs": outs, "codes": codes, "lsq": lsq, "lres": lres, "t_python": t_py, "t_coq": t_coq,
-           "nfiles": nfiles, "kinfo": kinfo}
+           "nfiles": nfiles, "kinfo": kinfo, "borderline": borderline}
     try:
         pickle.dump(res, open(cf, "wb"))
     except Exception:
@@ -645,6 +650,10 @@ def report(pid, tier, extra=None):
              "square general, tall 6x4, wide 4x6; integer y; x0 in {None, zeros, random}; damp in {0, 0.5, 3}; niter in {0,1,2,n,n+3} "
              "and one run stopped by a tolerance placed between exact kold values; non-trivial = distinct (system, x0, damp, niter, tol) "
              "with at least one iteration and a non-zero result",
+        borderline_stop=len(res.get("borderline", [])),
+        borderline_rule="stopping decision `kold > tol` not compared when the exact kold at a step where the guard is evaluated is within a "
+                        "factor 16 of tol, or below the noise floor 1e-18 * sum(kold) while tol <= 16 * floor (exactly converged model, tiny tol): "
+                        "iterates, cost, r1/r2 and all implementation-only truth checks are still compared",
         cg_cgls_runs=len(cases), runs_compared_in_coq=corr_all, systems_with_exact_convergence_certificate=ncert,
         lsqr_runs=nl, lsqr_scipy_comparisons=ncmp, distribution=dist, coq_files=res["nfiles"],
         modelled="CG, CGLS (setup/step/run/finalize/solve) in Gallina; LSQR is NOT modelled (oracle: scipy.sparse.linalg.lsqr)",
